@@ -431,11 +431,14 @@ LoopStartAnnounce(m, w) ==
     /\ disp[m][w].st = "signing" /\ disp[m][w].stage = "waitStart"
     /\ LET a == disp[m][w] IN
          /\ now >= AnnStartOf(SS(a), a.att) \/ LoopCtxDone(a)
+         \* (Announce broadcasts even under a context that is already done: that
+         \* message goes out on the block the loop context ended, possibly before
+         \* the attempt's announcement start block; nobody is left to count it)
+         /\ ann' = ann \cup {[s |-> Session(w, a), n |-> a.att, m |-> m, dead |-> LoopCtxDone(a)]}
          /\ IF LoopCtxDone(a)
-               THEN disp' = [disp EXCEPT ![m][w] = GiveUp(a)] /\ UNCHANGED ann
-               ELSE /\ ann' = ann \cup {[s |-> Session(w, a), n |-> a.att, m |-> m]}
-                    /\ disp' = [disp EXCEPT ![m][w] = [a EXCEPT !.stage = "announcing",
-                                                                !.lastAnn = AnnStartOf(SS(a), a.att)]]
+               THEN disp' = [disp EXCEPT ![m][w] = GiveUp(a)]
+               ELSE disp' = [disp EXCEPT ![m][w] = [a EXCEPT !.stage = "announcing",
+                                                             !.lastAnn = AnnStartOf(SS(a), a.att)]]
     /\ UNCHANGED <<now, lastWin, spawned, co, leader, hb, net, ret, cres, dres, sel, dones, executed, signedH, lastD>>
 
 Announcers(w, a) == {x.m : x \in {y \in ann : y.s = Session(w, a) /\ y.n = a.att}}
@@ -754,7 +757,7 @@ SigningWithinDeadline ==
 (* nothing of the action happens before its coordination window             *)
 NothingBeforeItsWindow ==
     /\ \A m \in Members, w \in Wallets : disp[m][w].st # "none" => now >= CB(disp[m][w].k)
-    /\ \A x \in ann : now >= AnnStartOf(SignStartOf(x.s.p.a, StartBlock(x.s.k)), x.n)
+    /\ \A x \in ann : ~x.dead => now >= AnnStartOf(SignStartOf(x.s.p.a, StartBlock(x.s.k)), x.n)
 (* constant level (C46): the post-signing step fits between the signing     *)
 (* deadline and the expiry                                                  *)
 PostStepBounded ==
